@@ -235,6 +235,21 @@ func (x *Exec) atReturn(fr *Frame, c *Contract, entry, st *State, params, result
 			o.Clause = cl
 			o.Outputs = outs
 			o.Detail = fmt.Sprintf("return#%d", x.returns)
+			for _, f := range x.findings {
+				if f.Status != "open" || f.Property != x.prop || f.Observed == "" {
+					continue
+				}
+				for _, pat := range f.Obligations {
+					if matchObl(pat, o.Name) {
+						oe, err := ParseExpr(f.Observed)
+						if err != nil {
+							specFail("known finding %s: observed: %v", f.ID, err)
+						}
+						ec2 := x.evalCtxFor(c, st, entry, nil, params, sig, results, true)
+						o.Observed = ec2.Bool(oe)
+					}
+				}
+			}
 		}); err != nil {
 			x.contractError(err)
 			return
